@@ -1,4 +1,5 @@
 import PepperProofs.ConstraintGenLoad
+import PepperProofs.ConstraintGenSimT
 /-!
 # C04 — designer constraint arrays are the exact closure of the specification
 
@@ -8,10 +9,9 @@ reachability in the link graph of the design: even link per pair of positions id
 link per base pair, parity adjusted by the `comp` flags), `okVar` (a base is allowed by the template of a position).
 
 Status.  Proved at full strength: exactness of the arrays with respect to the link graph the function seeds
-(`arrays_exact_graph`, both layouts), and for the strand layout the soundness half of the identification of that
-graph with the semantic link graph (`arrays_sound_strand`) and `layout_exact_strand`.  The completeness half (every
-semantic link and every pair of nodes with the same nucleotide is connected in the seeded graph) and the structure
-layout are stated (`arrays_exact_statement`) and validated by correspondence + the independent oracle.
+(`arrays_exact_graph`, both layouts), the soundness half of the identification of that graph with the semantic link
+graph (`arrays_sound`, both layouts) and `layout_exact_strand`.  The completeness half (every semantic link and every
+pair of nodes with the same nucleotide is connected in the seeded graph) and the layout of the structure mode are stated (`arrays_exact_statement`) and validated by correspondence + the independent oracle.
 -/
 namespace Pepper.C04
 open Pepper Pepper.Pil Pepper.ConstraintGen Pepper.LinkSpec Pepper.Closure
@@ -34,22 +34,22 @@ theorem arrays_exact_graph {tbl : CodeTable} (hl : tbl.lawful = true) {mode : La
       simpa using this
     exact this ▸ h.2.2
 
-/-- **Soundness, strand layout.**  For a document accepted by the reader and arrays returned by `get_constraints`
-    in the strand layout: every non-blank index `i` denotes a nucleotide `m` (`denS`, see `layout_exact_strand`),
-    and
+/-- **Soundness, both layouts.**  For a document accepted by the reader and arrays returned by `get_constraints`:
+    every non-blank index `i` denotes a nucleotide `m` (`denOf`: the nucleotide of the strand that sits there, see
+    `layout_exact_strand`), and
     * the position `eq[i]` carries a nucleotide the design forces *equal* to `m`,
     * the position `wc[i]` (if any) carries a nucleotide the design forces *complementary* to `m`,
     * `st[i]` allows every base that all templates linked to `m` in the design allow (complemented at odd parity).
     So the arrays never claim more than the link closure of the specification.  (The converse inclusions are the
     completeness half, see `arrays_exact_statement`.) -/
-theorem arrays_sound_strand {stmts : List Stmt} {spec : Spec}
+theorem arrays_sound {mode : Layout} {stmts : List Stmt} {spec : Spec}
     (hload : Pil.load Generated.nupackTable stmts {} = .ok spec)
-    {s : Seeds} {c : Cons} (hs : seeds .strand spec = .ok s) (hb : build s = .ok c)
-    {a : Arrays} (ha : getConstraints .strand spec = .ok a)
+    {s : Seeds} {c : Cons} (hs : seeds mode spec = .ok s) (hb : build s = .ok c)
+    {a : Arrays} (ha : getConstraints mode spec = .ok a)
     {i : Nat} {ch : Char} (hi : a.2.2[i]? = some (some ch)) :
-    ∃ m, denS spec i = some m ∧
-      (∀ r, a.1[i]? = some (some r) → ∃ n, denS spec r = some n ∧ NucReach (Pil.denote spec) m false n) ∧
-      (∀ w, a.2.1[i]? = some (some w) → ∃ n, denS spec w = some n ∧ NucReach (Pil.denote spec) m true n) ∧
+    ∃ m, denOf mode spec i = some m ∧
+      (∀ r, a.1[i]? = some (some r) → ∃ n, denOf mode spec r = some n ∧ NucReach (Pil.denote spec) m false n) ∧
+      (∀ w, a.2.1[i]? = some (some w) → ∃ n, denOf mode spec w = some n ∧ NucReach (Pil.denote spec) m true n) ∧
       (∀ b, (∀ v q, ParityReach (Pil.denote spec) m.var q v →
           okVar Generated.pilTable (Pil.denote spec) v (flipB (flipB b m.comp) q)) →
         hasB (Generated.pilTable.maskC ch) b) := by
@@ -64,13 +64,13 @@ theorem arrays_sound_strand {stmts : List Stmt} {spec : Spec}
     | inr h =>
       have := (G.blank i hlt h).2.2
       rw [this] at hi; cases hi
-  obtain ⟨m, hm, h1, h2, h3⟩ := arrays_sound_strand_aux wf ok pil_N.2 hs hb G hlt hk
+  obtain ⟨m, hm, h1, h2, h3⟩ := arrays_sound_aux wf ok pil_N.2 hs hb G hlt hk
   exact ⟨m, hm, h1, h2, fun b hb' => h3 ch hi b hb'⟩
 
 /-- **`layout_exact`, strand layout.**  An index below the array length is non-blank exactly when it is
     `start k + x` for a strand `k` and an offset `x` inside it, where `start k` is the sum over the earlier strands
     of (length + `strandGap`) — `strandGap` being the number of blanks measured on the working tree (2); that
-    index then denotes the `x`-th nucleotide of strand `k` of the design; and the array length is the last such
+    index then denotes (`denS` = `denOf .strand`) the `x`-th nucleotide of strand `k` of the design; and the array length is the last such
     index + 1. -/
 theorem layout_exact_strand {stmts : List Stmt} {spec : Spec}
     (hload : Pil.load Generated.nupackTable stmts {} = .ok spec)
@@ -145,8 +145,8 @@ theorem layout_exact_strand {stmts : List Stmt} {spec : Spec}
     arrays are exactly `LinkSpec.specArrays` — the arrays computed naively from the semantic link graph and the
     line of nucleotides the layout describes (`eq[i] = eq[j]` iff forced equal, `wc[i]` = lowest position forced
     complementary or none, `eq[i]` = lowest of its class, `st[i]` = intersection of all linked templates,
-    `lineOf` = strands with their blank separators).  Proved so far: `arrays_exact_graph` + `arrays_sound_strand` +
-    `layout_exact_strand`; the remaining half (completeness of the seeding, structure layout) is validated on every
+    `lineOf` = strands with their blank separators).  Proved so far: `arrays_exact_graph` + `arrays_sound` +
+    `layout_exact_strand`; the remaining half (completeness of the seeding, layout of the structure mode) is validated on every
     sampled document by the correspondence (`pil-constraints` vs the real arrays, `pil-spec-arrays` vs the
     independent oracle). -/
 def arrays_exact_statement : Prop :=
